@@ -419,7 +419,7 @@ func TestMutatedFileSets(t *testing.T) {
 // ---- listed conditions: exact limits and references ----------------------------------------------------------------
 
 func TestLimitsAndReferences(t *testing.T) {
-	ev.Rule(chkLimits, "rapid: a valid file set, then exactly one listed condition: one per-type file-size limit set to the file's compressed size (must accept) and size-1 (must reject) with all other limits huge; the decompression limit (size x factor) set to exactly the decompressed size (accept) and one less (reject) using whitespace padding; maxCasUriLength set to the longest referenced URI (accept) and one less (reject); a proof / chunk reference removed where required or added where superfluous; one entry dropped from / added to an index, proof or delta array so that counts disagree; a suffix repeated across sections; oracle: must-reject cases are rejected, must-accept cases read back; non-trivial = every case")
+	ev.Rule(chkLimits, "rapid: a valid file set, then exactly one listed condition: one per-type file-size limit set to the file's compressed size (must accept) and size-1 (must reject) with all other limits huge; the decompression limit (size x factor) set to exactly the decompressed size (accept) and one less (reject) using whitespace padding; each referenced file in turn re-hosted under a longer URI with maxCasUriLength set to that length (accept) and one less (reject); a proof / chunk reference removed where required or added where superfluous; one entry dropped from / added to an index, proof or delta array so that counts disagree; a suffix repeated across sections; oracle: must-reject cases are rejected, must-accept cases read back; non-trivial = every case")
 	ev.Rapid(t, chkLimits, 600, 8000, func(t *rapid.T) {
 		fs := buildSet(t)
 		var present []string
@@ -503,21 +503,40 @@ func TestLimitsAndReferences(t *testing.T) {
 				c.MustReject, c.Note = "a file decompressing to more than limit x factor", fmt.Sprintf("%s limit x factor == decompressed size %d - 1", role, d)
 			}
 		case "uri-length":
-			longest := 0
+			// one reference at a time: the referenced file is re-hosted under a longer address, so that only the
+			// length check of that very reference can reject it
+			var refs []string
 			for _, r := range roles[1:] {
-				if len(fs.addr[r]) > longest {
-					longest = len(fs.addr[r])
+				if fs.addr[r] != "" {
+					refs = append(refs, r)
 				}
 			}
-			if longest == 0 {
+			if len(refs) == 0 {
 				t.Skip("no referenced URI")
 			}
+			role := rapid.SampledFrom(refs).Draw(t, "reference")
+			long := fs.addr[role] + strings.Repeat("x", rapid.IntRange(1, 9).Draw(t, "extraLen"))
+			c.Files[long] = c.Files[fs.addr[role]]
+			switch role {
+			case "coreProof":
+				fs.json["coreIndex"]["coreProofFileUri"] = long
+				fs.put(c, "coreIndex", 0)
+			case "provIndex":
+				fs.json["coreIndex"]["provisionalIndexFileUri"] = long
+				fs.put(c, "coreIndex", 0)
+			case "provProof":
+				fs.json["provIndex"]["provisionalProofFileUri"] = long
+				fs.put(c, "provIndex", 0)
+			case "chunk":
+				fs.json["provIndex"]["chunks"] = []interface{}{map[string]interface{}{"chunkFileUri": long}}
+				fs.put(c, "provIndex", 0)
+			}
 			if rapid.Bool().Draw(t, "atLimit") {
-				c.L.URILen = uint(longest)
-				c.MustAccept, c.Note = true, fmt.Sprintf("maxCasUriLength == longest referenced URI %d", longest)
+				c.L.URILen = uint(len(long))
+				c.MustAccept, c.Note = true, fmt.Sprintf("%s re-hosted under a %d-character URI, maxCasUriLength == %d", role, len(long), len(long))
 			} else {
-				c.L.URILen = uint(longest - 1)
-				c.MustReject, c.Note = "an over-long CAS URI", fmt.Sprintf("maxCasUriLength == longest referenced URI %d - 1", longest)
+				c.L.URILen = uint(len(long) - 1)
+				c.MustReject, c.Note = "an over-long CAS URI", fmt.Sprintf("%s re-hosted under a %d-character URI, maxCasUriLength == %d", role, len(long), len(long)-1)
 			}
 		case "missing-reference":
 			var opts []string
